@@ -521,7 +521,7 @@ class ExprMixin:
             if f"{cls}.{attr}" in self.models or any(f"{c}.{attr}" in self.models for c in self.src.mro(cls)):
                 return [(BoundMethod(v, cls, attr), st)]
             raise OutOfSubset(f"attribute {cls}.{attr} not in shape", node)
-        if isinstance(v, (ListLoc, SeqV, PyList, MapLoc, PyDict, ImgSet)) or (isinstance(v, Sym) and v.ty in ("qset", "real", "int")):
+        if isinstance(v, (ListLoc, SeqV, PyList, MapLoc, PyDict, ImgSet, ImgSetQ)) or (isinstance(v, Sym) and v.ty in ("qset", "real", "int")):
             return [(BoundMethod(v, "<builtin>", attr), st)]
         if isinstance(v, tuple) and hasattr(v, "_fields"):
             return [(getattr(v, attr), st)]
@@ -627,6 +627,37 @@ class ExprMixin:
     def ev_Starred(self, e, st):
         raise OutOfSubset("starred", e)
 
+    def qset_image(self, e, g, it, st):
+        from .models import _fresh_consts_introduced
+        q0 = fresh("q", Qid)
+        probe = st.copy()
+        probe.assume(z3.Select(it.t, q0))
+        base = len(probe.pc)
+        self.assign_target(g.target, Sym(q0, "qid"), probe, e)
+        res = self.eval(e.elt, probe)
+        normal = [(v, s2) for v, s2 in res if not isinstance(v, Exc)]
+        for v, s2 in res:
+            if isinstance(v, Exc):
+                self.oblige(s2, f"comprehension-element-cannot-raise:{v.name}@{self.ntag(e)}", z3.BoolVal(False), "safety")
+        if len(normal) != 1:
+            raise OutOfSubset("set-comprehension body over a symbolic set is not single-path", e)
+        v, s_after = normal[0]
+        if not isinstance(v, Sym):
+            t, k = znum(v)
+            v = Sym(t, k)
+        new_pc = s_after.pc[base:]
+        fv = [c for c in _fresh_consts_introduced(new_pc + [v.t], st) if not c.eq(q0)]
+        funs = [z3.Function(f"img!{c.decl().name()}", Qid, c.sort()) for c in fv]
+
+        def inst(qt):
+            subs = [(q0, qt)] + [(c, f(qt)) for c, f in zip(fv, funs)]
+            return z3.substitute(v.t, *subs), [z3.substitute(f, *subs) for f in new_pc]
+        qq = z3.Const("q!img", Qid)
+        val, facts = inst(qq)
+        if facts:
+            st.assume(z3.ForAll([qq], z3.Implies(z3.Select(it.t, qq), z3.And(*facts)), patterns=[z3.Select(it.t, qq)]), name="comprehension-facts")
+        return [(ImgSetQ(it.t, lambda qt: inst(qt)[0], v.ty), st)]
+
     def ev_ListComp(self, e, st):
         return self.comprehension(e, st, "list")
 
@@ -693,6 +724,8 @@ class ExprMixin:
         """[f(x) for x in symbolic-iterable]: f evaluated once on a generic element (must be single-path), then
         generalised: the result is the sequence j -> f(elem(j)) (facts about f's evaluation hold for every j)."""
         from .models import GenTerm, _fresh_consts_introduced
+        if kind == "set" and isinstance(it, Sym) and it.ty == "qset":
+            return self.qset_image(e, g, it, st)
         dom = self.iter_domain(it, st, e)
         _, n, elem = dom
         j = fresh("j", I)
@@ -729,6 +762,13 @@ class ExprMixin:
         if kind == "list":
             return [(seq, st)]
         return [(ImgSet(seq), st)]
+
+
+class ImgSetQ:
+    """{f(q) for q in S} over a set of qubit ids: val(q) is a term in the element itself."""
+
+    def __init__(self, dom, val, ety):
+        self.dom, self.val, self.ety = dom, val, ety
 
 
 class ImgSet:
